@@ -24,13 +24,13 @@ def run(tree: str, extra: list[str]) -> set[str]:
         passed = set()
         for tc in ET.parse(xml).getroot().iter("testcase"):
             if not any(c.tag in ("failure", "error", "skipped") for c in tc):
-                passed.add(f"{tc.get('classname')}::{tc.get('name')}")
+                passed.add(f"{tc.get('classname')}::{tc.get('name')}".replace(tree.rstrip("/") + "/", "<tree>/"))
         return passed
 
 
 def main():
     a = sys.argv[1:]
-    tree = a[0]
+    tree = os.path.realpath(a[0])
     passed = run(tree, [])
     print(f"passed: {len(passed)}")
     if "--save" in a:
